@@ -141,12 +141,22 @@ def _returns_in_tail_position(block: list[ast.stmt]) -> bool:
             if i != len(block) - 1 or not _returns_in_tail_position(st.body):
                 return False
         elif isinstance(st, ast.Try):
-            # `try: return a  except E: ...; return b` as the last statement of the block
-            if i != len(block) - 1 or st.finalbody or st.orelse:
+            # `try: return a  except E: ...; return b` as the last statement of the block, or
+            # `try: a  except E: return b` followed by more statements (continued in `else:` and in the
+            # handlers that fall through)
+            if st.finalbody:
                 return False
+            if i != len(block) - 1 or st.orelse:
+                body_ret = any(isinstance(n, ast.Return) for b in st.body for n in ast.walk(b))
+                if body_ret and not _always_returns(st.body):
+                    return False
+                if not _returns_in_tail_position(st.orelse) or not _returns_in_tail_position(block[i + 1:]):
+                    return False
             if not _returns_in_tail_position(st.body) or not all(
                     _returns_in_tail_position(h.body) for h in st.handlers):
                 return False
+            if i != len(block) - 1:
+                return True
         elif isinstance(st, (ast.FunctionDef, ast.AsyncFunctionDef, ast.ClassDef)):
             continue
         else:
@@ -723,10 +733,23 @@ class Normaliser:
                 out.append(w)
                 return out
             if has_ret and isinstance(st, ast.Try):
+                rest = block[i + 1:]
                 w = clone(st)
-                w.body = self._to_sink(st.body, sink, budget) or [ast.Pass()]
+                if not rest and not st.orelse:
+                    w.body = self._to_sink(st.body, sink, budget) or [ast.Pass()]
+                    for h_new, h_old in zip(w.handlers, st.handlers):
+                        h_new.body = self._to_sink(h_old.body, sink, budget) or [ast.Pass()]
+                    out.append(w)
+                    return out
+                budget[0] -= len(rest) * (1 + len(st.handlers))
+                if budget[0] < 0:
+                    raise RecursionError('inlining would duplicate too much code')
+                body_returns = _always_returns(st.body)
+                w.body = (self._to_sink(st.body, sink, budget) if body_returns else clone(st.body)) or [ast.Pass()]
                 for h_new, h_old in zip(w.handlers, st.handlers):
-                    h_new.body = self._to_sink(h_old.body, sink, budget) or [ast.Pass()]
+                    src = h_old.body if _always_returns(h_old.body) else h_old.body + clone(rest)
+                    h_new.body = self._to_sink(src, sink, budget) or [ast.Pass()]
+                w.orelse = [] if body_returns else self._to_sink(st.orelse + clone(rest), sink, budget)
                 out.append(w)
                 return out
             out.append(st)
